@@ -270,8 +270,10 @@ theorem exec_bounded {w w' : World} {blk : Block} {op : Op} {o : Outcome}
     obtain ⟨cs, _, _, _, ho, _⟩ := reduceBalance_spec hred
     rw [ho k]; have := hb k; split <;> omega
   cases op with
-  | connect id v cv ord =>
-    have f := exec_plain_frame h (Or.inl ⟨id, v, cv, ord, rfl⟩); unfold Bounded; rw [f.1]; exact hb
+  | connect id v cv ord peer =>
+    have f := exec_plain_frame h (Or.inl ⟨id, v, cv, ord, peer, rfl⟩); unfold Bounded; rw [f.1]; exact hb
+  | chanOpen v cv ord => obtain ⟨rfl, _⟩ := exec_chanOpen h; exact hb
+  | chanClose id => exact (exec_chanClose h).elim
   | allow snd c gg =>
     have f := exec_plain_frame h (Or.inr (Or.inl ⟨snd, c, gg, rfl⟩)); unfold Bounded; rw [f.1]; exact hb
   | updateAdmin snd a =>
